@@ -48,6 +48,8 @@ type Opt struct {
 	Timeout time.Duration
 	// MemKB > 0 bounds the address space (ulimit -v) through a shell wrapper.
 	MemKB int
+	// Redirect is appended to the command line by a shell wrapper, e.g. ">/dev/full" or ">&-".
+	Redirect string
 	// StdinChunks > 1 delivers stdin in that many pieces with a pause in between (a pipe fed by a slow writer).
 	StdinChunks int
 }
@@ -64,8 +66,11 @@ func runOnce(o Opt, args []string) Res {
 	ctx, cancel := context.WithTimeout(context.Background(), to)
 	defer cancel()
 	var cmd *exec.Cmd
-	if o.MemKB > 0 {
-		sh := "ulimit -v " + itoa(o.MemKB) + "; exec \"$0\" \"$@\""
+	if o.MemKB > 0 || o.Redirect != "" {
+		sh := "exec \"$0\" \"$@\" " + o.Redirect
+		if o.MemKB > 0 {
+			sh = "ulimit -v " + itoa(o.MemKB) + "; " + sh
+		}
 		cmd = exec.CommandContext(ctx, "/bin/sh", append([]string{"-c", sh, bin}, args...)...)
 	} else {
 		cmd = exec.CommandContext(ctx, bin, args...)
